@@ -2,6 +2,7 @@
 """Regenerates the `fixed` list of known_findings.json from /repo's "fix:" commits."""
 import json, subprocess
 PROP = {
+"GraphQL schema generation hashes":"C19","GraphQL flattened field context leaks":"C19",
 "serialization of a discriminated union of TypedDict":"C04","dependent_required ignores fields skipped":"C03,C17","FieldsConstructor counts all":"C01,C08","coerce() turns unhashable":"C03,C14","Optional[Literal/Enum] schema":"C06",
 "FrozenSetMethod leaks":"C03","default values of GraphQL":"C11,C19","concurrent recursion":"C20","field with Undefined default":"C04,C07",
 "check_type + fall_back_on_any":"C08","serialized methods omitted":"C07","prefixItems is kept":"C18","DRAFT_2019_09 declares":"C17,C18",
